@@ -128,19 +128,30 @@ theorem ruleEngine_blocked (rules : List Rule) (h : String) (qt : Nat) :
 
 /-! ## The handler -/
 
-theorem wrap_blocked (g : Global) (r : Req) (h : blocked g r = true) : (wrap g r).effects = [] := by
+theorem wrap_blocked (g : Global) (r : Req) (h : blocked g r = true) :
+    wrap g r = { effects := [], err := false, why := (wrap g r).why } ∧ (wrap g r).why ≠ "next" := by
   unfold blocked at h
   unfold wrap
   split
-  · rfl
+  · exact ⟨rfl, by decide⟩
   · split
-    · rfl
-    · rfl
-    · split <;> simp_all
+    · exact ⟨rfl, by decide⟩
+    · exact ⟨rfl, by decide⟩
+    · exact ⟨rfl, by decide⟩
+    · simp_all
+
+theorem wrap_blocked_effects (g : Global) (r : Req) (h : blocked g r = true) : (wrap g r).effects = [] := by
+  rw [(wrap_blocked g r h).1]
+
+theorem wrap_blocked_err (g : Global) (r : Req) (h : blocked g r = true) : (wrap g r).err = false := by
+  rw [(wrap_blocked g r h).1]
+
+theorem wrap_blocked_info (g : Global) (r : Req) (h : blocked g r = true) : (wrap g r).info = none := by
+  rw [(wrap_blocked g r h).1]
 
 theorem serve_blocked {σ ρ : Type} (g : Global) (next : σ → Req → σ × Option ρ) (s : σ) (r : Req)
     (h : blocked g r = true) : serve g next s r = (s, .nothing) := by
-  simp [serve, wrap_blocked g r h]
+  simp [serve, wrap_blocked_effects g r h, wrap_blocked_err g r h]
 
 /-! ## The handler before the repairs (for the counter-example theorems only) -/
 
@@ -154,8 +165,8 @@ def accessReasonPre (g : Global) (r : Req) : Reason :=
     | Option.none => .pass
     | some p => if p.isBlocked r.qname r.qtype r.addr r.asn then .profile else .pass
 
-/-- The handler before the repair: a malformed ECS option was answered with FORMERR before the device
-and access checks. -/
+/-- The handler before the first repair: a malformed ECS option was answered with FORMERR before the
+device and access checks. -/
 def wrapPre (reason : Global → Req → Reason) (g : Global) (r : Req) : Out :=
   if r.port == 0 then { effects := [], err := false, why := "spoof" }
   else if r.ecsBad then { effects := [.formerr], err := true, why := "formerr" }
@@ -167,5 +178,67 @@ def wrapPre (reason : Global → Req → Reason) (g : Global) (r : Req) : Out :=
       match reason g r with
       | .pass => { effects := [.next], err := false, why := "next" }
       | _ => { effects := [], err := false, why := "blocked" }
+
+/-- The handler before the third repair: the device result was handled before the access check, so a
+device-finder error was returned to the server — which answers SERVFAIL — whoever the client was. -/
+def wrapDevFirst (g : Global) (r : Req) : Out :=
+  if r.port == 0 then { effects := [], err := false, why := "spoof" }
+  else
+    match r.dev with
+    | .unknownDedicated => { effects := [], err := false, why := "unknown-dedicated" }
+    | .error => { effects := [], err := true, why := "device-error" }
+    | _ =>
+      match accessReason g r with
+      | .globalIP => { effects := [], err := false, why := "global-ip" }
+      | .globalHost => { effects := [], err := false, why := "global-host" }
+      | .profile => { effects := [], err := false, why := "profile" }
+      | .pass =>
+        if r.ecsBad then { effects := [.formerr], err := true, why := "formerr" }
+        else { effects := [.next], err := false, why := "next", info := some (reqInfo r) }
+
+/-- `wire` for an arbitrary handler. -/
+def wireOf (o : Out) : List Effect := o.effects ++ (if o.err then [.servfail] else [])
+
+/-! ## Subnet membership, bit by bit -/
+
+/-- Two numbers agree after dropping the `k` low bits iff they agree on every bit from `k` up. -/
+theorem shiftRight_eq_iff_testBit (a b k : Nat) :
+    a >>> k = b >>> k ↔ ∀ i, k ≤ i → a.testBit i = b.testBit i := by
+  constructor
+  · intro h i hi
+    have := congrArg (fun x => x.testBit (i - k)) h
+    simp only [Nat.testBit_shiftRight] at this
+    have e : k + (i - k) = i := by omega
+    simpa [e] using this
+  · intro h
+    apply Nat.eq_of_testBit_eq
+    intro j
+    simp only [Nat.testBit_shiftRight]
+    exact h (k + j) (by omega)
+
+/-! ## The statement, declaratively -/
+
+/-- `a` lies in the subnet `n`: same family, and the two addresses agree on every bit above the host
+part. -/
+def InSubnet (n : Prefix) (a : Addr) : Prop :=
+  n.is4 = a.is4 ∧ ∀ i, width a.is4 - n.bits ≤ i → a.val.testBit i = n.val.testBit i
+
+/-- The client's location is known and its ASN is listed. -/
+def AsnIn (l : List Nat) (o : Option Nat) : Prop := ∃ a, o = some a ∧ a ∈ l
+
+/-- The engine's verdict on the question as rules see it. -/
+def NameBlocked (e : Eng) (r : Req) : Prop := engBlocked (e (normQueryDomain r.qname) r.qtype) = true
+
+/-- An allowed subnet or ASN of the profile covers the client. -/
+def Allowed (p : ProfAcc) (r : Req) : Prop :=
+  AsnIn p.allowedASN r.asn ∨ ∃ n ∈ p.allowedNets, InSubnet n r.addr
+
+/-- The property's "is rejected": globally blocked subnet, global blocked-name rule, or the profile's
+access settings: blocked ASN or subnet not overridden by an allowed one, or a blocked-name rule. -/
+def Rejected (g : Global) (r : Req) : Prop :=
+  (∃ n ∈ g.nets, InSubnet n r.addr) ∨ NameBlocked g.eng r ∨
+    ∃ p, r.dev = .ok (some p) ∧
+      ((¬ Allowed p r ∧ (AsnIn p.blockedASN r.asn ∨ ∃ n ∈ p.blockedNets, InSubnet n r.addr)) ∨
+        NameBlocked p.eng r)
 
 end Agd.Access
